@@ -293,12 +293,20 @@ def stmle_part(ctx, fails):
         payload = {'part': 'stmle', 'data': df.to_dict('list'), 'meta': meta}
         per = {}
         p = ctx.rng.choice([1.0, 0.0, 0.4])
+        cond = None
+        if i % 2 == 1 or ctx.rng.random() < 0.3:
+            # conditional plan (list p): the same seeded call must give the same point estimate whatever alpha is
+            cond = ["df['W0'] > 0", "df['W0'] <= 0"]
+            p = [ctx.rng.choice([0.2, 0.5]), ctx.rng.choice([0.7, 0.9])]
+        seed = ctx.rng.choice([0, 7, 20211])
+        ctx.count('stmle plan:' + ('conditional' if cond else 'scalar'))
         try:
             for a in ALPHAS:
                 st = StochasticTMLE(df, 'A', 'Y', alpha=a)
                 st.exposure_model(meta['rhs'])
                 st.outcome_model('A + ' + meta['rhs'])
-                st.fit(p=p, samples=5, seed=7)
+                np.random.random(ctx.rng.randint(1, 9))      # whatever else the session did to numpy's global generator
+                st.fit(p=p, conditional=cond, samples=5, seed=seed)
                 per[a] = (float(st.marginal_outcome), float(st.marginal_ci[0]), float(st.marginal_ci[1]), float(st.marginal_se))
         except Exception as e:   # noqa
             fails.append((len(df), 'StochasticTMLE.fit.raises', 'StochasticTMLE raised %s: %s' % (type(e).__name__, str(e)[:100]), payload))
@@ -307,7 +315,7 @@ def stmle_part(ctx, fails):
         ctx.programs += 1
         ctx.count('site:StochasticTMLE')
         ctx.nontriv(['stmle', otype, p, df['Y'].tolist()[:8]])
-        check_family(fails, 'StochasticTMLE.marginal', 'StochasticTMLE marginal outcome (p=%g)' % p, per, False, payload, len(df))
+        check_family(fails, 'StochasticTMLE.marginal', 'StochasticTMLE marginal outcome (p=%r, conditional=%r, seed=%r)' % (p, cond, seed), per, False, payload, len(df))
         if st.marginal_se < 0 or st.marginal_se != st.marginal_se:
             fails.append((len(df), 'StochasticTMLE.se', 'marginal SE is %r' % st.marginal_se, payload))
 
